@@ -178,7 +178,9 @@ def gen_interp2d(ctx):
         do_interp2d(ctx, x, xf, f, exact, 'dyadic' if exact else 'random')
     ctx.flush()
     # LARGE problems (queries x nodes beyond 10^5, 10^6): clamping outside the table, nodes and midpoints behave as for small tables
-    for nq, nn in ([(1000, 300)] if ctx.tier == 'quick' else [(1000, 300), (4000, 300), (300, 4000), (120, 1000)]):
+    for nq, nn in ([(1000, 300)] if ctx.tier == 'quick' else [(1000, 300), (4000, 300), (300, 4000), (120, 1000)]) + \
+            [(k, 300) for k in gen.hint_sizes(ctx, lo=13, hi=6000, cap=3)] + [(300, k) for k in gen.hint_sizes(ctx, lo=13, hi=6000, cap=3)] + \
+            [(c // 300 + 1, 300) for c in gen.hint_sizes(ctx, lo=10000, hi=1500000, cap=2)]:      # source hints: queries, nodes, queries x nodes around every new integer constant
         xf = [0.0]
         for _ in range(nn - 1):
             xf.append(xf[-1] + rng.choice([0.25, 0.5, 1.0]))
@@ -392,6 +394,8 @@ def gen_roll(ctx):
     # the dtype of the input (the values are whole numbers + eighths, exact in float32; the exact spec is compared at 1e-9)
     fixed = [(5000, 1000, 5, 'forward', 'float32_array'), (3000, 250, 50, 'centre', 'float32_array'), (5000, 1000, 16, 'backward', 'float32_array'),
              (3000, 1000, 2, 'centre', 'float_array')]
+    # source hints: series lengths and window sizes around every new integer constant of the anchored files
+    fixed += [(k, 250, 5, 'forward', 'float_array') for k in gen.hint_sizes(ctx, lo=301, hi=20000, cap=4)] + [(3000, 0, k, 'centre', 'float_array') for k in gen.hint_sizes(ctx, lo=2, hi=400, cap=4)]
     for it in range(len(fixed) + (2 if ctx.tier == 'quick' else 40)):
         if it < len(fixed):
             n, off, steps, mode, cont = fixed[it]
@@ -621,6 +625,8 @@ def gen_spectra(ctx):
         [(1.0, 1.0, 1.0), (0.4, 1.3, 1.1), (0.13, 0.25, 1.0), (0.6, 1.8, 1.2), (0.3, 0.5, 1.05), (0.25, 1.0, 1.0)]
     grid = [6.0 * i / (400 if quick else 2000) for i in range((400 if quick else 2000) + 1)]
     grid += [rng.uniform(0, 6) for _ in range(60 if quick else 600)] + [1e-12, 5e-324, 10.0, 123.456, 1e6]
+    # source hints: periods at / around (and one ulp either side of) every new float constant of the anchored files
+    grid += [float(t) for c in gen.hint_values(ctx, 0.0, 1e6, cap=40) for t in (c, np.nextafter(c, np.inf), np.nextafter(c, -np.inf)) if t >= 0]
     for cls in ('C', 'D', 'E'):
         periods = list(grid)
         for b in BREAKS[cls]:
